@@ -2,7 +2,8 @@
    Statements only; proofs are in Proofs/Xfr*.v, the model in Model/XfrM.v, the server-side
    specification (headers, versions, streams) in Proofs/XfrSpec.v. *)
 From DV Require Import Base.Prelude Model.XfrM Proofs.XfrSpec.
-From DV Require Proofs.XfrSafety Proofs.XfrBasic Proofs.XfrIxfr Proofs.XfrAxfr.
+From DV Require Proofs.XfrSafety Proofs.XfrBasic Proofs.XfrIxfr Proofs.XfrAxfr Proofs.XfrFault Proofs.XfrOrder.
+From Coq Require Import Sorting.Permutation.
 
 (* Whatever is received (any messages, any records, any chunking, any fault), if the transfer ends
    with an exception - including the stream ending before the transfer is complete - the zone is
@@ -84,6 +85,31 @@ Theorem axfr_style_ixfr_converges : forall v z0 ser ws,
 Proof. exact XfrAxfr.axfr_style_ixfr_converges. Qed.
 Print Assumptions axfr_style_ixfr_converges.
 
+(* General form (RFC 1995 / RFC 5936 do not fix the order of the records inside a deletion section,
+   an addition section or an AXFR body): ixfr_response / axfr_response allow ANY permutation of the
+   records of every section / of the body.  ixfr_converges, axfr_converges and
+   axfr_style_ixfr_converges above are the instances with the canonical order. *)
+Theorem ixfr_converges_any_order : forall v0 chain z0 recs ws,
+  chain_ok v0 chain -> zeq z0 (zone_of v0) -> ixfr_response v0 chain recs -> chunking tIXFR recs ws ->
+  exists z' n, inbound_xfr z0 tIXFR (Some (v_serial v0)) false ws = (Done z', n)
+               /\ zeq z' (zone_of (last chain v0)).
+Proof. exact XfrOrder.ixfr_converges_any_order. Qed.
+Print Assumptions ixfr_converges_any_order.
+
+Theorem axfr_converges_any_order : forall v z0 ser recs ws,
+  version_wf v -> axfr_response v recs -> chunking tAXFR recs ws ->
+  exists z' n, inbound_xfr z0 tAXFR ser false ws = (Done z', n) /\ zeq z' (zone_of v).
+Proof. exact XfrOrder.axfr_converges_any_order. Qed.
+Print Assumptions axfr_converges_any_order.
+
+Theorem axfr_style_ixfr_converges_any_order : forall v z0 ser recs ws,
+  version_wf v -> v_rest v <> [] -> axfr_response v recs ->
+  v_serial v <> ser -> serial_lt (v_serial v) ser = false ->
+  chunking tIXFR recs ws ->
+  exists z' n, inbound_xfr z0 tIXFR (Some ser) false ws = (Done z', n) /\ zeq z' (zone_of v).
+Proof. exact XfrOrder.axfr_style_ixfr_converges_any_order. Qed.
+Print Assumptions axfr_style_ixfr_converges_any_order.
+
 (* UDP IXFR: the same stream in one datagram *)
 Theorem udp_ixfr : forall v0 chain z0 w,
   chain_ok v0 chain -> zeq z0 (zone_of v0) ->
@@ -111,6 +137,48 @@ Theorem ixfr_early_end_rejected : forall v0 chain z0 ws q,
   exists e n, inbound_xfr z0 tIXFR (Some (v_serial v0)) false ws = (Error e z0, n).
 Proof. exact XfrIxfr.ixfr_early_end_rejected. Qed.
 Print Assumptions ixfr_early_end_rejected.
+
+(* ends early, AXFR *)
+Theorem axfr_early_end_rejected : forall v z0 ser ws q,
+  version_wf v -> Forall (header_ok tAXFR) ws -> q <> [] ->
+  concat (map w_records ws) ++ q = axfr_stream v ->
+  exists e n, inbound_xfr z0 tAXFR ser false ws = (Error e z0, n).
+Proof. exact XfrFault.axfr_early_end_rejected. Qed.
+Print Assumptions axfr_early_end_rejected.
+
+(* single faults on a valid IXFR response that are always detected: a non-zero rcode, or a wrong
+   question, in ANY message that is read before the transfer is complete (any division into
+   messages); truncation at every position is ixfr_early_end_rejected / axfr_early_end_rejected *)
+Theorem ixfr_rcode_fault_rejected : forall v0 chain z0 ws1 w' ws2 q,
+  chain_ok v0 chain -> zeq z0 (zone_of v0) ->
+  Forall (header_ok tIXFR) ws1 -> q <> [] ->
+  concat (map w_records ws1) ++ q = ixfr_stream v0 chain ->
+  match ws1 with w :: _ => w_records w <> [] | [] => True end ->
+  w_rcode w' <> 0 ->
+  exists n, inbound_xfr z0 tIXFR (Some (v_serial v0)) false (ws1 ++ w' :: ws2) = (Error eTransfer z0, n).
+Proof. exact XfrFault.ixfr_rcode_fault_rejected. Qed.
+Print Assumptions ixfr_rcode_fault_rejected.
+
+Theorem ixfr_question_fault_rejected : forall v0 chain z0 ws1 w' ws2 q qn qt qs,
+  chain_ok v0 chain -> zeq z0 (zone_of v0) ->
+  Forall (header_ok tIXFR) ws1 -> q <> [] ->
+  concat (map w_records ws1) ++ q = ixfr_stream v0 chain ->
+  match ws1 with w :: _ => w_records w <> [] | [] => True end ->
+  w_rcode w' = 0 -> w_question w' = (qn, qt) :: qs -> (qn <> origin \/ qt <> tIXFR) ->
+  exists e n, (e = eQName \/ e = eQType) /\
+    inbound_xfr z0 tIXFR (Some (v_serial v0)) false (ws1 ++ w' :: ws2) = (Error e z0, n).
+Proof. exact XfrFault.ixfr_question_fault_rejected. Qed.
+Print Assumptions ixfr_question_fault_rejected.
+
+(* the outcome side of the single-fault lemma, for ANY input (hence any fault): an error leaves the
+   zone unchanged (error_leaves_zone); a completed transfer leaves the zone untouched (up-to-date
+   answer) or holding the SOA announced by the first record - the server's serial *)
+Theorem done_has_announced_soa : forall z rdt ser udp ws z' n,
+  inbound_xfr z rdt ser udp ws = (Done z', n) ->
+  z' = z \/ exists w ws' r0 rs, ws = w :: ws' /\ group (rdt =? tIXFR) (w_records w) = r0 :: rs
+                                 /\ announced r0 z'.
+Proof. exact XfrFault.done_has_announced_soa. Qed.
+Print Assumptions done_has_announced_soa.
 
 (* non-vacuity: concrete instances of the hypotheses *)
 Example ex_backwards :
@@ -169,3 +237,11 @@ Example ex_axfr_runs :
     [mkW 0 [(0, tAXFR)] [soa_rr ex_v2]; mkW 0 [] [mkRR 0 1 2 0 3600 3; mkRR 2 1 16 0 0 9; mkRR 0 1 2 0 3600 2; soa_rr ex_v2]]
   = (Done [(soakey, (600, [v_soa ex_v2])); ((2, 16, 0), (0, [9])); ((0, 2, 0), (3600, [2; 3]))], 2%nat).
 Proof. vm_compute. reflexivity. Qed.
+
+Example ex_response_any_order :
+  axfr_response ex_v2 [soa_rr ex_v2; mkRR 2 1 16 0 0 9; mkRR 0 1 2 0 3600 3; mkRR 0 1 2 0 3600 2; soa_rr ex_v2].
+Proof.
+  exists [mkRR 2 1 16 0 0 9; mkRR 0 1 2 0 3600 3; mkRR 0 1 2 0 3600 2]. split; [|reflexivity].
+  cbn. apply Permutation_sym. eapply perm_trans; [apply perm_skip, perm_swap|]. eapply perm_trans; [apply perm_swap|].
+  apply perm_skip, perm_swap.
+Qed.
